@@ -15,17 +15,17 @@ import (
 // It sees all traffic and all node states (worst case), can sign only with its
 // own keys, and can replay any bytes or signatures it has seen.
 type Adversary struct {
-	w     *World
-	p     *Profile
-	r     *rand.Rand
-	byz   []string
-	outs  []string
-	own   map[string]bool
-	seq   int
-	done  map[string]bool
-	Fired map[string]int
-	strat []wstrat
-	total int
+	w         *World
+	p         *Profile
+	r         *rand.Rand
+	byz       []string
+	outs      []string
+	own       map[string]bool
+	seq       int
+	done      map[string]bool
+	Fired     map[string]int
+	strat     []wstrat
+	total     int
 	allowBare bool // may send standalone PREPREPAREs for views above 0 (the recorded C07 known finding)
 }
 
@@ -77,7 +77,9 @@ func NewAdversary(w *World, p *Profile) *Adversary {
 	return a
 }
 
-func (a *Adversary) Active() bool { return a.p.Adversary && (len(a.byz) > 0 || len(a.outs) > 0) && a.total > 0 }
+func (a *Adversary) Active() bool {
+	return a.p.Adversary && (len(a.byz) > 0 || len(a.outs) > 0) && a.total > 0
+}
 
 // Step runs one adversary action at a height some correct node is deciding.
 func (a *Adversary) Step() string {
@@ -997,7 +999,6 @@ func minInt(a, b int) int {
 	return b
 }
 
-
 // signOther models the parallel consensus instance that runs with the same member keys:
 // signatures of *any* member over headers of the OTHER instance are public knowledge.
 func (a *Adversary) signOther(id string, h uint64, raw []byte) []byte {
@@ -1125,7 +1126,6 @@ func (a *Adversary) sendRaw(from, to string, raw *interfaces.ConsensusRawMessage
 	}
 }
 
-
 // splicedProof: for a view pv < v led by a Byzantine member in which correct nodes sent PREPAREs for
 // some hash Y reaching quorum weight together with the leader, a proof whose PREPREPARE ref (signed by
 // that leader) names the hash of blk while the PREPARE ref and its genuine signatures are for Y.
@@ -1174,7 +1174,6 @@ func (a *Adversary) splicedProof(h, v uint64, blk *spi.Blk) *ref.Proof {
 	return nil
 }
 
-
 // otherInstanceProof: what a quorum of members genuinely signed in the parallel instance for blk at view pv.
 func (a *Adversary) otherInstanceProof(h, pv uint64, blk *spi.Blk) *ref.Proof {
 	c := a.w.Comm(h)
@@ -1197,7 +1196,6 @@ func (a *Adversary) otherInstanceProof(h, pv uint64, blk *spi.Blk) *ref.Proof {
 	}
 	return p
 }
-
 
 // corruptNested: a NEW_VIEW / VIEW_CHANGE seen on the wire with a corrupted offset deep inside its nested parts (the
 // top-level fields still read fine), sent to nodes at its height and to nodes still below it (future cache).
